@@ -200,7 +200,7 @@ impl<'a> JsonParser<'a> {
 
     fn value(&mut self) -> Result<J, String> {
         self.depth += 1;
-        if self.depth > 120 {
+        if self.depth > 2000 {
             return Err("too deep".to_string());
         }
         let r = match self.peek() {
